@@ -28,13 +28,19 @@ def mc(ctx):
         # quick: one call, invariants only (liveness under crash/destroy is checked in the thorough tier)
         cfgd = cfgd.replace("MaxCalls = 2", "MaxCalls = 1").replace('{"ping", "open", "exec"}', '{"ping", "exec"}')
         cfgd = "\n".join(l for l in cfgd.splitlines() if not l.startswith("PROPERTIES")) + "\n"
+    else:
+        # thorough: two calls with Destroy / crashes in every state, invariants; liveness on the one-call model
+        cfgd = "\n".join(l for l in cfgd.splitlines() if not l.startswith("PROPERTIES")) + "\n"
+        cfgl = open(os.path.join(vlib.VERIF, "spec", "ContainerProto_MCD.cfg")).read().replace("MaxCalls = 2", "MaxCalls = 1")
+        r = ctx.tlc("ContainerProto", cfg=cfgl, workers=4, timeout=2400)
+        ctx.tlc_ok("ContainerProto MC (destroy/crash, liveness, 1 call)", r)
     r = ctx.tlc("ContainerProto", cfg=cfgd, workers=4, timeout=2400)
     ctx.tlc_ok("ContainerProto MC (destroy/crash)", r)
     ctx.cov["mc_loss_distinct"] = r.distinct
 
 
 def gen(ctx):
-    cfg = "CONSTANTS NRandom = %d\n  Level = %d\nINIT Init\nNEXT Next\n" % (ctx.pick(30, 300), ctx.pick(1, 2))
+    cfg = "CONSTANTS NRandom = %d\n  Level = %d\nINIT Init\nNEXT Next\n" % (ctx.pick(30, 120), ctx.pick(1, 2))
     g = ctx.tlc("ContainerAPI_Gen", cfg=cfg, timeout=600, count=False, extra=["-seed", str(ctx.seed + 1)])
     ctx.tlc_ok("ContainerAPI_Gen", g)
     hs = ctx.read_ndjson(os.path.join(g.dir, "histories.ndjson"))
